@@ -9,6 +9,7 @@ import (
 	"time"
 
 	simplefixgo "github.com/b2broker/simplefix-go"
+	"github.com/b2broker/simplefix-go/fix"
 	"github.com/b2broker/simplefix-go/storages/memory"
 	fixgen "github.com/b2broker/simplefix-go/tests/fix44"
 	"github.com/b2broker/simplefix-go/utils"
@@ -32,7 +33,8 @@ func c20(w *World) {
 	w.Cfg("initiators", nIni)
 	// the bundled store itself (no harness wrapper), one instance shared by every accepted
 	// session, as the repository's tests and examples wire it
-	acc := w.StartAcceptor(AccCfg{HandlerBuf: buf, WriteTimeout: time.Minute, HBMin: 1, HBMax: 60, RawStore: memory.NewStorage(), CloseTimeout: time.Second})
+	accStore := memory.NewStorage()
+	acc := w.StartAcceptor(AccCfg{HandlerBuf: buf, WriteTimeout: time.Minute, HBMin: 1, HBMax: 60, RawStore: accStore, CloseTimeout: time.Second})
 	var inis []*InitSide
 	var ends []*Conn
 	for i := 0; i < nIni; i++ {
@@ -139,7 +141,19 @@ func c20(w *World) {
 		// resend requests overlapping sends (the peer's inbound goroutine reads the store while its senders write it)
 		spawn("ini-resend", func(i int) {
 			simrt.Sleep(time.Duration(100+w.W.Draw(900)) * time.Millisecond)
-			_ = in.S.Send(fixgen.NewResendRequest().SetBeginSeqNo(1).SetEndSeqNo(1 + w.W.Draw(3)))
+			if w.W.Chance(1, 2) {
+				_ = in.S.Send(fixgen.NewResendRequest().SetBeginSeqNo(1).SetEndSeqNo(1 + w.W.Draw(3)))
+			} else {
+				// from the acceptor's most recent messages through "the last one": the range reaches the
+				// message an acceptor-side sender is handing off at this very moment
+				cur, _ := accStore.GetCurrSeqNum(fix.StorageID{Side: fix.Outgoing})
+				b := cur - w.W.Draw(3)
+				if b < 1 {
+					b = 1
+				}
+				_ = in.S.Send(fixgen.NewResendRequest().SetBeginSeqNo(b).SetEndSeqNo(0))
+				w.Probe("resend_reaches_message_in_flight")
+			}
 			_ = in.S.Send(fixgen.NewTestRequest().SetTestReqID("tr" + itoa(i)))
 			w.Probe("resend_overlapped_send")
 		})
